@@ -12,15 +12,12 @@ Definition nokey (nodes : list node) : Prop :=
   forall nd, In nd nodes -> from_tape (n_op nd) = true -> key_none (n_op nd).
 Definition few_deps (nodes : list node) : Prop :=
   forall nd, In nd nodes -> Z.of_nat (length (n_deps nd)) < 2 ^ 64.
-(* none of ArrayToVector, Zip, A2B, B2A occurs *)
-Definition plain_meta (o : op) : bool :=
-  match o with OArrayToVector | OZip | OA2B | OB2A _ => false | _ => true end.
+(* neither ArrayToVector nor Zip occurs *)
 Definition simple_ops (nodes : list node) : Prop :=
-  forall nd, In nd nodes -> plain_meta (n_op nd) = true.
-Lemma simple_ops_simple nodes : simple_ops nodes -> forall nd, In nd nodes -> simple_meta (n_op nd) = true.
-Proof. intros H nd I. specialize (H nd I). destruct (n_op nd); cbn in *; auto; discriminate. Qed.
-Lemma simple_ops_no_bits nodes : simple_ops nodes -> ~ bits_ops nodes.
-Proof. intros H (nd & I & [E|(st & E)]); specialize (H nd I); rewrite E in H; discriminate. Qed.
+  forall nd, In nd nodes -> simple_meta (n_op nd) = true.
+(* the values of a run are well typed *)
+Definition vals_typed (nodes : list node) (vals : list value) : Prop :=
+  forall i nd v, nth_error nodes i = Some nd -> nth_error vals i = Some v -> has_type v (n_ty nd) = true.
 Definition infer_const (infer : op -> list ty -> ty) : Prop := forall t v, infer (OConstant t v) [] = t.
 
 Lemma Forall2_and_r {A B} (R : A -> B -> Prop) (P : B -> Prop) l l' :
@@ -31,7 +28,7 @@ Proof. induction 1; intros F; inversion F; subst; constructor; auto. Qed.
    the constant pass emits *)
 Definition prov (pre out : list node) (m : list (option Z)) : Prop :=
   forall j nd', nth_error out j = Some nd' ->
-    (exists T v, nd' = cnode T v) \/
+    (exists T v i, nd' = cnode T v /\ nth_error m i = Some (Some (Z.of_nat j))) \/
     (exists i nd deps', nth_error pre i = Some nd /\ nth_error m i = Some (Some (Z.of_nat j)) /\
                         mapM (map_get m) (n_deps nd) = Ok deps' /\
                         Forall (fun d' => 0 <= d' < Z.of_nat j) deps' /\
@@ -39,13 +36,14 @@ Definition prov (pre out : list node) (m : list (option Z)) : Prop :=
 
 Lemma prov_ext pre a out m x : prov pre out m -> prov (pre ++ [a]) out (m ++ [x]).
 Proof.
-  intros H j nd' E. destruct (H j nd' E) as [L|(i & nd & deps' & E1 & E2 & E3 & E4 & E5)]; [left; auto|].
+  intros H j nd' E. destruct (H j nd' E) as [(T & v & i & E1 & E2)|(i & nd & deps' & E1 & E2 & E3 & E4 & E5)];
+    [left; exists T, v, i; auto using nth_error_app1'|].
   right. exists i, nd, deps'. repeat split; auto using nth_error_app1', mapM_map_get_app.
 Qed.
 
 Lemma prov_snoc pre out m nd' :
   prov pre out m ->
-  ((exists T v, nd' = cnode T v) \/
+  ((exists T v i, nd' = cnode T v /\ nth_error m i = Some (Some (Z.of_nat (length out)))) \/
    (exists i nd deps', nth_error pre i = Some nd /\ nth_error m i = Some (Some (Z.of_nat (length out))) /\
                        mapM (map_get m) (n_deps nd) = Ok deps' /\
                        Forall (fun d' => 0 <= d' < Z.of_nat (length out)) deps' /\
@@ -82,7 +80,8 @@ Section ConstProv.
       destruct Hc as [T v Hann Hwhy Hconsts Hres | deps' Hnc Hdeps Hwhy Hj Hout Hcache Hconsts].
       + destruct Hres as [(Hf & -> & _)|(Hf & -> & -> & _)].
         * now apply prov_ext.
-        * apply prov_snoc; [now apply prov_ext|]. left. exists T, v. reflexivity.
+        * apply prov_snoc; [now apply prov_ext|]. left. exists T, v, (length pre). split; [reflexivity|].
+          rewrite <- I2. apply nth_error_snoc.
       + rewrite Hout. subst j. apply prov_snoc; [now apply prov_ext|]. right.
         exists (length pre), a, deps'. rewrite nth_error_snoc, <- I2, nth_error_snoc.
         repeat split; auto using mapM_map_get_app. eapply mapped_bounded; eauto.
@@ -115,7 +114,7 @@ Proof.
             (exists nd deps', In nd nodes /\ n_op nd' = n_op nd /\ n_ty nd' = n_ty nd /\
                               n_deps nd' = deps' /\ length deps' = length (n_deps nd))).
   { intros nd' I. apply in_nth in I as (j & Ej).
-    destruct (Ip _ _ Ej) as [L|(i0 & nd & deps' & E1 & E2 & E3 & E4 & ->)]; [left; auto|right].
+    destruct (Ip _ _ Ej) as [(T & v & i0 & -> & _)|(i0 & nd & deps' & E1 & E2 & E3 & E4 & ->)]; [left; eauto|right].
     exists nd, deps'. repeat split; auto; [eapply nth_error_In; eauto|].
     apply mapM_Forall2 in E3. symmetry. eapply Forall2_length'; eauto. }
   (* dependency types of a copied node *)
@@ -145,13 +144,29 @@ Proof.
     + discriminate.
     + rewrite Eop in *. auto.
   - intros Ic Tn. split.
-    + intros j nd' Ej. destruct (Ip _ _ Ej) as [(T & v & ->)|(i0 & nd & deps' & E1 & E2 & E3 & E4 & ->)].
+    + intros j nd' Ej. destruct (Ip _ _ Ej) as [(T & v & ix & -> & _)|(i0 & nd & deps' & E1 & E2 & E3 & E4 & ->)].
       * exists []. cbn. split; [reflexivity|symmetry; apply Ic].
       * destruct (Tn _ _ E1) as (dts & D & Ty). exists dts. cbn [n_deps n_ty n_op]. split; eauto.
     + intros Mt j nd' dts' Ej D'.
-      destruct (Ip _ _ Ej) as [(T & v & ->)|(i0 & nd & deps' & E1 & E2 & E3 & E4 & ->)]; [exact I|].
+      destruct (Ip _ _ Ej) as [(T & v & ix & -> & _)|(i0 & nd & deps' & E1 & E2 & E3 & E4 & ->)]; [exact I|].
       cbn [n_deps n_ty n_op] in *. destruct (Tn _ _ E1) as (dts & D & Ty).
       rewrite (Dts _ _ _ _ _ E1 E3 E4 D) in D'. injection D' as <-. exact (Mt _ _ _ E1 D).
+Qed.
+
+(* the values of the folded graph are well typed if those of the original graph are *)
+Theorem const_preserves_vals_typed nodes o p vals vals' :
+  const_typed nodes -> opt_const nodes o = Ok p ->
+  vals_typed nodes vals -> sim nodes (po_nodes p) vals vals' (po_map p) ->
+  vals_typed (po_nodes p) vals'.
+Proof.
+  intros Ct H Vt S. rewrite opt_const_unfold in H. apply bind_ok in H as ([s i] & E & H). injection H as <-.
+  cbn [po_nodes po_map] in *. apply (const_prov_inv nodes o Ct) in E as (_ & Ip). cbn [fst] in Ip.
+  intros j nd' v' Ej Ev.
+  assert (exists i0, nth_error (cs_map s) i0 = Some (Some (Z.of_nat j))) as (i0 & Em).
+  { destruct (Ip _ _ Ej) as [(T & v & i0 & _ & Em)|(i0 & nd & deps' & _ & Em & _)]; eauto. }
+  destruct (S _ _ Em) as (_ & (v & V1 & V2) & (nd & nd'' & N1 & N2 & N3)).
+  rewrite Nat2Z.id in V2, N2. assert (nd'' = nd') by congruence. assert (v = v') by congruence. subst.
+  rewrite N3. eapply Vt; eauto.
 Qed.
 
 (* ------------------------------------------------------------------ operations of the graph the
